@@ -57,6 +57,7 @@ pub fn content_addressed() {
     let a = Rep::new();
     let mut b = Rep::new();
     let s0 = dump(&a.ad);
+    a.m.update(doc_with(&["a"], &["w".to_string()], "s")).unwrap();
     a.m.update(doc_with(&["a", "b"], &["x".to_string(), "y".to_string()], "t")).unwrap();
     let info = obj(json!({"author": "é√", "msg": sym::string(PRINTABLE, 1, 1), "nested": {"n": [1, -2, {"k": "q\"\\"}], "e": {}}, "i": 1234567890123i64}));
     a.m.commit(Some(info)).unwrap();
